@@ -31,6 +31,15 @@ def run_family(chk, invariants, properties, s2i_fields, trace_fields, trace_inv,
     if execs:
         chk.sample({"recorded_execution_prefix": execs[0][:4]})
     log("%s: I->S %d/%d executions accepted" % (chk.pid, acc, len(execs)))
+    # 4. I->S only: programs whose additions overflow.  The trace specification does not fix the value an overflowing addition
+    #    stores (any in-range value, but the same one for the same operands, whether reached by execute() or by single steps),
+    #    so these programs are kept out of the graph and of the S->I histories, where a concrete value would have to be assumed
+    osrc = vm.boundary_programs()
+    oprogs = vm.compile_progs(th, osrc)
+    oexecs = vm.record_traces(chk, th, osrc, 120, 2 if chk.thorough else 1, chk.seed + 5, style=style)
+    oacc = vm.validate_traces(chk, oexecs, oprogs, trace_fields + ("s" if "s" not in trace_fields else ""), trace_inv, trace_props, name="tvo")
+    chk.add("traces_validated_against_impl", oacc)
+    chk.add("overflow_program_traces", len(oexecs))
     chk.cov["rule"] = ("complete TLC state graph of TheoVM over all debugger histories of the compiled corpus programs; "
                        "all API histories of length %d replayed into the real VM; %d seeded random histories of %d calls "
                        "recorded from the real VM and validated by TheoVMTrace" % (k, len(execs), calls))
